@@ -701,8 +701,9 @@ def source_arity(w: World) -> dict[str, int]:
             return helper_n[helper]
         hf = w.repo.func('parsing', helper)
         incs = []
+        adv = hf.params[2] if len(hf.params) > 2 else None      # (opname, symbols, <advance counter>, ...)
         for n in ast.walk(hf.node):
-            if isinstance(n, ast.AugAssign) and isinstance(n.target, ast.Name) and n.target.id == 'symbols_to_advance' \
+            if isinstance(n, ast.AugAssign) and isinstance(n.target, ast.Name) and n.target.id == adv \
                     and isinstance(n.value, ast.Constant):
                 incs.append(n.value.value)
             if isinstance(n, ast.Return) and isinstance(n.value, ast.Call) and isinstance(n.value.func, ast.Name) \
@@ -710,7 +711,7 @@ def source_arity(w: World) -> dict[str, int]:
                 helper_n[helper] = n_of(n.value.func.id)
                 return helper_n[helper]
         if not incs:
-            raise AnalysisError(f'{helper}: symbols_to_advance increment not found')
+            raise AnalysisError(f'{helper}: increment of the advance counter (3rd parameter) not found')
         helper_n[helper] = min(incs)
         return helper_n[helper]
 
